@@ -56,7 +56,7 @@ def Fe0 : Form := ⟨.func, .extern, false, .file, false, none⟩ -- extern int 
 def Ot0 : Form := ⟨.obj, .none, true, .file, false, none⟩     -- _Thread_local int x;
 def Ot1 : Form := ⟨.obj, .none, true, .file, true, none⟩      -- _Thread_local int x = 1;
 def On0 : Form := ⟨.obj, .none, false, .file, false, none⟩    -- int x;
-def Bv0 : Form := ⟨.obj, .extern, true, .block, false, none⟩  -- { extern _Thread_local int x; }
+def Be0 : Form := ⟨.obj, .extern, false, .block, false, none⟩ -- { extern int x; }
 
 /-- `inline int f(void){…} extern int f(void);` — C11: external definition of `f`; the model
 (like `decl.c`, see its XXX) emits nothing.  fid `inline-then-extern-not-emitted`. -/
@@ -86,17 +86,19 @@ theorem linkage_history_correct_partial (h : List Form) (hok : Link.ok h)
 def rejects_violations_full : Prop :=
   ∀ h : List Form, Link.violates h → ∃ e, run h = .error e
 
-/-- `int x; void u(void){ extern _Thread_local int x; }` violates 6.7.1p3; the model accepts it
-(`decl.c` compares thread-local-ness only with a prior declaration in the same scope). -/
+/-- `void u(void){ extern int x; } _Thread_local int x;` violates 6.7.1p3; the model accepts it
+(`decl.c` keeps no record of block-scope `extern` declarations once their block is closed — the
+XXX in `declcommon` — so the file-scope declaration is compared with nothing). -/
 theorem rejects_violations_counterexample : ¬ rejects_violations_full := by
   intro hfull
-  have h := (isError_iff _).2 (hfull [On0, Bv0] ⟨.c6_7_1p3_threadMismatchOtherScope, by decide⟩)
+  have h := (isError_iff _).2 (hfull [Be0, Ot0] ⟨.c6_7_1p3_threadMismatchUnseenBlockExtern, by decide⟩)
   revert h
   decide
 
-/-- Every constraint violation other than the cross-scope `_Thread_local` mismatch is rejected. -/
+/-- Every constraint violation other than a `_Thread_local` mismatch with a block-scope `extern`
+declaration that is no longer (or not) visible is rejected. -/
 theorem rejects_violations_partial (h : List Form) (c : Clause) (hc : classify h = .violates c)
-    (hne : c ≠ .c6_7_1p3_threadMismatchOtherScope) : ∃ e, run h = .error e := by
+    (hne : c ≠ .c6_7_1p3_threadMismatchUnseenBlockExtern) : ∃ e, run h = .error e := by
   obtain ⟨e, he⟩ := viol_sim h.reverse c (classify_violates hc) hne
   exact ⟨e, by rw [run_eq, he]⟩
 
